@@ -18,7 +18,7 @@ EXTENDS Transforms, Json, IOUtils, TLCExt, SequencesExt
 Log == ndJsonDeserialize(IOEnv.OBS)
 NL == Len(Log)
 
-F(tag, step, name, k, e) == [tag |-> tag, step |-> step, name |-> name, k |-> k, e |-> e]
+F(tag, step, name, k, e) == [tag |-> tag, step |-> step, name |-> name, k |-> k, e |-> e, j |-> 0]
 When(cond, item) == IF cond THEN {item} ELSE {}
 Max2(a, b) == IF a > b THEN a ELSE b
 
@@ -110,7 +110,7 @@ ArrayFails(kind, steps, st, r, k) ==
       key == RefKey(kind, st, ARef(k))
   IN UNION {LET items == {x \in Rng(r.same) : x.k = k /\ x.ref = ref} IN
               IF items = {} THEN {F("missing", s, "same", k, 0)}
-              ELSE UNION {When(x.e > AccOf(kind), F("same", s, ref.t, k, x.e)) : x \in items}
+              ELSE UNION {When(x.e > AccOf(kind), [F("same", s, ref.t, k, x.e) EXCEPT !.j = ref.a]) : x \in items}
             : ref \in SameAs(kind, st, k)}
      \cup (IF kind = "ROT"
            THEN LET items == {x \in Rng(r.exact) : x.k = k}
@@ -137,7 +137,7 @@ Ctx(r, f) ==
       step == IF f.step >= 1 THEN steps[f.step] ELSE steps[1]
       fit == IF step.op = "fit" THEN [data |-> step.data, opt |-> step.opt] ELSE IF r.kind = "NS" THEN NoFit ELSE ObjOf(st, step.who)
       base == IF step.op \in {"fwd", "inv"} THEN RefBase(st, step.src) ELSE step.data
-  IN [tag |-> f.tag, step |-> f.step, name |-> f.name, k |-> f.k, e |-> f.e, op |-> step.op,
+  IN [tag |-> f.tag, step |-> f.step, name |-> f.name, k |-> f.k, j |-> f.j, e |-> f.e, op |-> step.op,
       opt |-> fit.opt, fitdata |-> fit.data, base |-> base,
       refit |-> CountFits(SubSeq(steps, 1, f.step)) >= 2,
       masked |-> IF base \in AllDataNames THEN \E i \in 1..Data(base).n : Data(base).sel[i] = 0 ELSE FALSE,
